@@ -30,12 +30,72 @@ def check(run, prog, tier):
     run.rule("C19-B", "every view is a sum over exactly the cells of its class", minimum=9)
     run.rule("C19-C", "add = read cell, add, write the same cell - or refuse (finite evaluation)", minimum=20)
     run.rule("C19-D", "resolution conversions only descend and sum over the partition", minimum=12)
+    run.rule("C19-E", "the storage-resolution label changes only with the data it describes (who may write it, "
+                      "under which guard)", minimum=3)
     m = prog.module(T2)
     tables = rule_A(run, prog, m)
     rule_B(run, prog, m)
     rule_C(run, prog, m)
     rule_D(run, prog, m)
+    rule_E(run, prog, m)
     run.extra["exhaustive"] = True
+
+
+def rule_E(run, prog, m):
+    """The getter and setter of the storage and every refusal check key off self.storage_resolution.
+    Relabelling it without converting the stored dictionary makes the old cells invisible to every
+    view (the total no longer contains what was added) and switches the refusals off.  The label may
+    therefore be written only (i) in a constructor, (ii) by the first addition, under the guard
+    'not self.storage_initialized', (iii) by the conversion loop, right after the elementary
+    conversion to that level."""
+    from ..loader import parents_map
+    rid = "C19-E"
+    n_sites = 0
+    for mod in prog.modules.values():
+        for fn in [f for c in mod.classes.values() for f in c.methods.values()] + list(mod.functions.values()):
+            stores = [n for n in ast.walk(fn.node) if isinstance(n, (ast.Assign, ast.AugAssign))
+                      and any(isinstance(t_, ast.Attribute) and t_.attr == "storage_resolution"
+                              for t_ in (n.targets if isinstance(n, ast.Assign) else [n.target]))]
+            if not stores:
+                continue
+            prog.consulted.add(fn.relpath)
+            pm = parents_map(fn.node)
+            for st in stores:
+                n_sites += 1
+                why = None
+                if fn.name == "__init__":
+                    ok = True
+                    kind = "constructor"
+                else:
+                    # (ii) guarded first addition
+                    guarded = False
+                    node = st
+                    while node is not None and node is not fn.node:
+                        par = pm.get(node)
+                        if isinstance(par, ast.If) and norm(par.test) == "not self.storage_initialized" and \
+                                any(node is x or any(node is y for y in ast.walk(x)) for x in par.body):
+                            guarded = True
+                        node = par
+                    # (iii) conversion loop: previous statement in the same block converts to the same level
+                    conv = False
+                    par = pm.get(st)
+                    for fld in ("body", "orelse"):
+                        blk = getattr(par, fld, None)
+                        if isinstance(blk, list) and st in blk and blk.index(st) > 0:
+                            prev = blk[blk.index(st) - 1]
+                            if isinstance(prev, ast.Expr) and isinstance(prev.value, ast.Call) and \
+                                    call_name(prev.value) == "_convert_res_elementary" and len(prev.value.args) == 2 and \
+                                    isinstance(st, ast.Assign) and norm(st.value) == "_resolutions[%s]" % norm(prev.value.args[1]):
+                                conv = True
+                    ok = guarded or conv
+                    kind = "first addition" if guarded else ("conversion" if conv else "unguarded")
+                run.obligation(rid, fn.short, ok, key="label-write:" + norm(st)[:50],
+                               message="%s relabels the storage (%s) outside a constructor, the first-addition guard "
+                                       "'not self.storage_initialized' and the conversion loop: the stored cells are "
+                                       "not converted with it" % (fn.short, norm(st)[:60]),
+                               loc=fn.loc(st), sample={"function": fn.short, "kind": kind})
+    if n_sites < 3:
+        raise AnalysisError("only %d writes of storage_resolution found (3 confirmed)" % n_sites)
 
 
 def _fold(m, node, env):
